@@ -31,6 +31,39 @@ type lstats struct {
 	ncmdSeen        int
 }
 
+// attrs: the attributes real pipelines put on command and group steps (unknown to this library: they
+// live in the remaining fields) - none of them has any bearing on whether a step is signed
+func attrs(t *rapid.T) map[string]any {
+	if rapid.IntRange(0, 2).Draw(t, "attrs") != 0 {
+		return nil
+	}
+	out := map[string]any{}
+	pool := map[string][]any{
+		"skip":                     {true, "frozen until the release", false, ""},
+		"if":                       {"build.branch == 'main'", "false"},
+		"depends_on":               {"build", []any{"a", "b"}},
+		"allow_dependency_failure": {true},
+		"soft_fail":                {true, []any{map[string]any{"exit_status": 1}}},
+		"branches":                 {"main", "!main"},
+		"parallelism":              {0, 3},
+		"concurrency":              {1},
+		"timeout_in_minutes":       {0, 10},
+		"disabled":                 {true},
+		"signature":                {"not-a-signature"},
+	}
+	names := make([]string, 0, len(pool))
+	for k := range pool {
+		names = append(names, k)
+	}
+	sort.Strings(names) // (draws must not follow Go's map iteration order)
+	for _, k := range names {
+		if rapid.IntRange(0, 3).Draw(t, "attr-"+k) == 0 {
+			out[k] = rapid.SampledFrom(pool[k]).Draw(t, "attrv-"+k)
+		}
+	}
+	return out
+}
+
 func genSteps(g *sgen.G, t *rapid.T, depth int, allowUnknown bool, st *lstats, penvNames []string) pipeline.Steps {
 	n := rapid.IntRange(0, 4).Draw(t, "nsteps")
 	if depth == 0 {
@@ -55,6 +88,15 @@ func genSteps(g *sgen.G, t *rapid.T, depth int, allowUnknown bool, st *lstats, p
 					}
 				}
 			}
+			for k, v := range attrs(t) {
+				if k == "signature" {
+					continue // a modelled field of command steps, not a remaining one
+				}
+				if s.RemainingFields == nil {
+					s.RemainingFields = map[string]any{}
+				}
+				s.RemainingFields[k] = v
+			}
 			st.ncmd++
 			if depth > st.maxCmdDepth {
 				st.maxCmdDepth = depth
@@ -72,7 +114,7 @@ func genSteps(g *sgen.G, t *rapid.T, depth int, allowUnknown bool, st *lstats, p
 			out = append(out, &pipeline.TriggerStep{Contents: map[string]any{"trigger": "deploy", "build": map[string]any{"env": map[string]any{"A": "1"}}}})
 		case k >= 6 && k < 10 && depth < 4:
 			name := "group"
-			grp := &pipeline.GroupStep{Group: &name, Key: g.Str("gkey")}
+			grp := &pipeline.GroupStep{Group: &name, Key: g.Str("gkey"), RemainingFields: attrs(t)}
 			grp.Steps = genSteps(g, t, depth+1, allowUnknown, st, penvNames)
 			if grp.Steps == nil {
 				grp.Steps = pipeline.Steps{}
